@@ -118,6 +118,10 @@ class StandIn(object):
 
 
 class FakeArray(object):
+    # what Solver.reorder_particles may look at
+    properties = {}
+    num_real_particles = 0
+
     def __init__(self, name, log):
         self.name = name
         self.log = log
@@ -137,6 +141,9 @@ class FakeNNPS(object):
     def update(self):
         self.log.append(('reorder', list(self.pending)))
         self.pending = []
+
+    def update_domain(self):
+        pass
 
 
 class FakePM(object):
@@ -1038,7 +1045,19 @@ def check_segment(case, seg, si, F, labels, kinds, aux):
             labels.append('cmd')
     first_step_at = next((i for i, e in enumerate(ev) if e[0] == 'step'),
                          len(ev))
-    re_after = [e[1] for e in ev[first_step_at:] if e[0] == 'reorder']
+    # one re-ordering = the neighbour search updated (possibly also before
+    # the ordering, so that it is computed from the current arrays), the
+    # arrays ordered, the neighbour search updated again: adjacent update
+    # events belong to one re-ordering
+    re_after = []
+    prev = None
+    for e in ev[first_step_at:]:
+        if e[0] == 'reorder':
+            if prev == 'reorder':
+                re_after[-1] = re_after[-1] + list(e[1])
+            else:
+                re_after.append(list(e[1]))
+        prev = e[0]
     if not rf:
         if any(e[0] == 'reorder' for e in ev):
             F('reorder', 'particles re-ordered with reorder_freq=0')
